@@ -372,6 +372,21 @@ Theorem C04_V_spec_within_resolution : forall rnd (Vf : Q -> Q), rnd_keeps_betwe
 Proof. exact iq_V_lemma. Qed.
 Print Assumptions C04_V_spec_within_resolution.
 
+(* the six call sites of vle.py (arguments tied to the source by the iqsite correspondence cases, which compare the
+   arguments of every real call with [site_cfg] and [c_maxiter]): all three optional checks are off, so the solver never
+   raises there, and a return by the tolerance test is within V_tol = H_hat_tol = S_hat_tol = 1e-6 of the specification
+   or within T_tol = 5e-8 K (P_tol = 1 Pa) of a sign change of the residual the solver was shown *)
+Theorem C04_call_sites : forall s rnd f, rnd_keeps_between rnd ->
+  forall x0 x1 y0 y1 guess,
+  (exists r, iq_interpolation rnd f (site_cfg s) c_maxiter x0 x1 (Some y0) (Some y1) guess = Ok r) /\
+  forall r n, y0 == f x0 -> y1 == f x1 -> y0 * y1 <= 0 ->
+    iq_interpolation rnd f (site_cfg s) c_maxiter x0 x1 (Some y0) (Some y1) guess = Ok (r, Tol, n) ->
+    Qabs (f r) < c_V_tol \/
+    exists a b, f a < 0 /\ 0 < f b /\ (r = a \/ r = b) /\
+                Qabs (b - a) < (match s with SiteTV | SiteTH | SiteTS => c_P_tol | _ => c_T_tol end) /\ btw x0 x1 a /\ btw x0 x1 b.
+Proof. exact call_sites_lemma. Qed.
+Print Assumptions C04_call_sites.
+
 (* non-vacuity: exact arithmetic (fractions kept in lowest terms) is an admissible [rnd]; a run on x^2 - 2 over [0, 2]
    with vle.py's flags returns by the tolerance test after 7 evaluations, and a run with maxiter = 2 runs out of iterations *)
 Example C04_iq_premises_hold :
